@@ -227,6 +227,10 @@ func (m *pssMachine) startIter(s *pssSub, ctx context.Context) {
 		s.seq = seq
 		return
 	}
+	if s.kind == "iter-precancelled" {
+		s.kind, s.state, s.seq = "iter-never-run", "left", seq
+		return
+	}
 	s.state = "receiving"
 	s.op = vkit.Launch("iterator", func() any {
 		done := make(chan struct{})
@@ -413,7 +417,7 @@ func (m *pssMachine) ruleSubscribe(t *rapid.T) {
 	if m.subscribed() >= 5 {
 		t.Skip("enough")
 	}
-	kind := rapid.SampledFrom([]string{"manual", "manual", "iter", "iter", "iter-never-run"}).Draw(t, "kind")
+	kind := rapid.SampledFrom([]string{"manual", "manual", "iter", "iter", "iter-never-run", "iter-precancelled"}).Draw(t, "kind")
 	s := &pssSub{id: len(m.subs), kind: kind}
 	do := func() {
 		switch kind {
@@ -423,6 +427,9 @@ func (m *pssMachine) ruleSubscribe(t *rapid.T) {
 		default:
 			ctx, cancel := context.WithCancel(context.Background())
 			s.cancel = cancel
+			if kind == "iter-precancelled" {
+				cancel() // the subscription is made and withdrawn again (asynchronously) by SubscribeContext itself
+			}
 			m.startIter(s, ctx)
 		}
 	}
